@@ -292,6 +292,16 @@ static void dump_data(Solver& S)
     out("pc.delta", fmtv(pc.delta)); out("pc.delta_inv", fmtv(pc.delta_inv));
     out("pc.delta_lb", fmtv(pc.delta_lb)); out("pc.delta_lb_inv", fmtv(pc.delta_lb_inv));
     out("pc.delta_ub", fmtv(pc.delta_ub)); out("pc.delta_ub_inv", fmtv(pc.delta_ub_inv));
+    // C15: every scale_X / unscale_X accessor pair must be mutually inverse on every active index: rt = unscale(scale(v)),
+    // tr = scale(unscale(v)) for v = (2, 3, 4, ...); implementation-side oracle only (not part of the model comparison)
+#define VERIF_RT(name, len) { Vec<T> v_(len); for (isize i_ = 0; i_ < (isize)(len); i_++) v_(i_) = T((long) (i_ + 2)); \
+        Vec<T> a_ = pc.scale_##name(v_); Vec<T> b_ = pc.unscale_##name(a_); Vec<T> c_ = pc.unscale_##name(v_); Vec<T> d_ = pc.scale_##name(c_); \
+        out("rt." #name, fmtv(b_)); out("tr." #name, fmtv(d_)); }
+    VERIF_RT(primal, d.n) VERIF_RT(dual_eq, d.p) VERIF_RT(dual_ineq, d.m) VERIF_RT(dual_lb, d.n_lb) VERIF_RT(dual_ub, d.n_ub)
+    VERIF_RT(slack_ineq, d.m) VERIF_RT(slack_lb, d.n_lb) VERIF_RT(slack_ub, d.n_ub)
+    VERIF_RT(primal_res_eq, d.p) VERIF_RT(primal_res_ineq, d.m) VERIF_RT(primal_res_lb, d.n_lb) VERIF_RT(primal_res_ub, d.n_ub) VERIF_RT(dual_res, d.n)
+#undef VERIF_RT
+    out("rt.cost", fmt(pc.unscale_cost(pc.scale_cost(T(3L))))); out("tr.cost", fmt(pc.scale_cost(pc.unscale_cost(T(3L)))));
 #endif
 }
 
